@@ -107,6 +107,7 @@ type LogOpts struct {
 	Hostile    bool
 	BaseNs     int64
 	Big        bool // cross the 1000-points / 1 MiB chunk thresholds
+	TTLLabel   bool // a third of the streams carry the reserved label __ttl_days__ (stripped by the writer, sets the row TTL)
 	Huge       bool // every stream is more than 1 MiB: the parser hands the body over in one portion per stream
 	LabelPool  []string
 }
@@ -156,6 +157,9 @@ func NewLogCase(r *rand.Rand, o LogOpts) LogCase {
 				v = "x"
 			}
 			st.Labels = append(st.Labels, [2]string{names[perm[i]], v})
+		}
+		if o.TTLLabel && r.Intn(3) == 0 && !strings.HasPrefix(o.Proto, "datadog") {
+			st.Labels = append(st.Labels, [2]string{"__ttl_days__", []string{"1", "7", "30"}[r.Intn(3)]})
 		}
 		r.Shuffle(len(st.Labels), func(i, j int) { st.Labels[i], st.Labels[j] = st.Labels[j], st.Labels[i] })
 		ne := 1 + r.Intn(o.MaxEntries)
